@@ -137,7 +137,10 @@ def tv_coq(tv):
     if t == 'b':
         return '(JBool %s)' % cbool(bool(tv[1]))
     if t == 'i':
-        return '(JInt %s)' % cz(int(tv[1]))
+        z = int(tv[1])
+        if abs(z) >= 10 ** 40:
+            return '(JInt (Corr.zdec %s "%d"%%string))' % (cbool(z < 0), abs(z))
+        return '(JInt %s)' % cz(z)
     if t == 'f':
         return '(JNum %s)' % ctext(ftok(float.fromhex(tv[1])))
     if t == 't':
